@@ -451,16 +451,17 @@ def check_ec(case, acc):
     st, val = guarded(call, EC_BUDGET)
     size = sum(len(bytes(v)) * 8 if isinstance(v, (bytes, bytearray)) else abs(int(v)).bit_length()
                for k, v in case.items() if k in ("x", "y", "d", "seed", "point", "dbytes", "pub") and v is not None)
-    size += {"p192": 0, "p224": 1, "p256": 2, "p384": 3, "p521": 4}.get(cn, 0) + (0 if case["entry"] != "import" else 5)
+    size += {"p256": 0, "p192": 1, "p224": 2, "p384": 3, "p521": 4}.get(cn, 0) * 70
+    size += {"construct": 0, "EccPoint": 1, "EccXPoint": 1}.get(case["entry"], 5)
     if st == "hang":
-        acc.violation("C05/ec/%s/hang/%s" % (group, fam), desc + ": does not return within %.0f s of CPU time" % EC_BUDGET,
+        acc.violation("C05/ec/hang/%s" % fam, desc + ": does not return within %.0f s of CPU time" % EC_BUDGET,
                       case, script=_script(case), size=size)
         return cls, "hang"
     if st == "exc":
         if isinstance(val, ValueError):
             return cls, "ValueError"
         name = type(val).__name__
-        acc.violation("C05/ec/%s/%s/%s" % (group, name, fam),
+        acc.violation("C05/ec/%s/%s" % (name, fam),
                       desc + ": raised %s: %s at %s (reference class of the input: %s; the property demands ValueError)"
                       % (name, val, exc_site(val), cls), case, script=_script(case), size=size)
         return cls, name
@@ -471,8 +472,10 @@ def check_ec(case, acc):
         acc.observe(o)
     if V:
         for cat, txt in V[:1]:
-            acc.seen("ec_viol_curves", ("C05/ec/%s/%s/%s" % (group, cat, fam), cn))
-            acc.violation("C05/ec/%s/%s/%s" % (group, cat, fam),
+            if cat == "seed-point-mismatch-accepted" and fam.startswith("curve"):
+                fam = "montgomery"
+            acc.seen("ec_viol_curves", ("C05/ec/%s/%s" % (cat, fam), cn, group))
+            acc.violation("C05/ec/%s/%s" % (cat, fam),
                           desc + ": accepted (reference class of the input: %s): %s" % (cls, txt),
                           case, script=_script(case), size=size)
         return cls, "accepted!" + V[0][0]
